@@ -1359,6 +1359,216 @@ def gen_big(rng, tier):
     return items
 
 
+# ------------------------------------------------------------------------------------------
+# ASCII85 boundary groups (seeded defect p1: a 64-bit accumulator with ONE range check per group, written
+# `value >= u32::MAX`, refuses the legal group s8W-! = 2^32-1 = ff ff ff ff; random data meets an aligned group of four
+# 0xff bytes with probability 2^-32, white image samples are nothing else)
+# ------------------------------------------------------------------------------------------
+A85_MAIN_GROUPS = [0xFFFFFFFF, 0xFFFFFFFE, 0x00000000, 0x00000001]
+A85_MORE_GROUPS = [0xFFFFFFFD, 0xFFFFFF00, 0xFFFF0000, 0xFF000000, 0x00FFFFFF, 0x80000000, 0x7FFFFFFF, 0x00000054, 0x00000055,
+                   85 ** 4 - 1, 85 ** 4, 82 * 85 ** 4 - 1, 82 * 85 ** 4, 0xFFFFFFFF - 85, 0xFFFFFFFF - 84, 0x01000000, 0x00010000, 0x00000100]
+
+
+def a85_digits(v):
+    """the five digits of a group value (any value below 85^5, also above 2^32-1: such a text is illegal)"""
+    assert 0 <= v < 85 ** 5
+    ds = []
+    for _ in range(5):
+        ds.append(33 + v % 85); v //= 85
+    return bytes(reversed(ds))
+
+
+assert a85_digits(0xFFFFFFFF) == b's8W-!' and a85_digits(0x100000000) == b's8W-"' and a85_digits(0xFFFFFFFE) == b's8W,u'
+# complete groups above 2^32-1: the neighbours of s8W-! upwards, a carry into every digit, the largest text
+A85_ABOVE_MAX = [a85_digits(v) for v in (2 ** 32, 2 ** 32 + 1, 2 ** 32 + 83, 2 ** 32 + 84, 2 ** 32 + 85, 2 ** 32 + 85 ** 2, 2 ** 32 + 85 ** 3,
+                                         83 * 85 ** 4, 84 * 85 ** 4, 85 ** 5 - 2, 85 ** 5 - 1)]
+assert A85_ABOVE_MAX[0] == b's8W-"' and A85_ABOVE_MAX[3] == b's8W.!' and A85_ABOVE_MAX[-1] == b'uuuuu' and b't!!!!' in A85_ABOVE_MAX
+
+
+def encode_chain(rng, chain, plain, level=None, a85_opts=None, early=1):
+    """`plain` through the reference encoders of `chain` (decoding order, like the Filter array; no parameters):
+    (content, orc).  level: zlib level of every Flate stage (0 = stored blocks: the bytes of the data appear in the stream,
+    four-byte aligned from the second one on: 2 bytes header + 5 bytes block header)"""
+    data = plain; orc = []
+    for f in reversed(chain):
+        if f == A8:
+            data = a85_encode(data, rng, **(a85_opts or {}))
+        elif f == FL:
+            enc = zlib.compress(data, rng.choice([1, 6, 9]) if level is None else level)
+            orc.append(('f', enc, data)); data = enc
+        else:
+            enc = lzw_encode_fast(data, early)
+            orc.append(('l%d' % early, enc, data)); data = enc
+    return data, orc
+
+
+def chain_entries(rng, chain, content_len, parms=None):
+    entries = [('Filter', N(chain[0]) if len(chain) == 1 and rng.random() < 0.5 else A([N(f) for f in chain]))]
+    if parms is not None:
+        entries.append(('DecodeParms', parms))
+    if rng.random() < 0.7:
+        entries.append(('Length', I(content_len)))
+    rng.shuffle(entries)
+    return entries
+
+
+def a85_opts_list(rng):
+    return [{'use_z': True, 'eod': True}, {'use_z': False, 'eod': True}, {'use_z': True, 'eod': False},
+            {'use_z': rng.random() < 0.5, 'eod': True, 'ws': 0.4, 'trailing': rng.choice([b'', b'\n'])}]
+
+
+def group_tag(v):
+    return 'a85-group-%08x' % v
+
+
+def gen_a85_boundary(rng, tier):
+    """ASCII85 data with the boundary groups at four-byte aligned offsets: 0xFFFFFFFF (s8W-!, the largest legal text),
+    0xFFFFFFFE, 0x00000000 (as z and as !!!!!), 0x00000001 and values around every digit carry; partial final groups of 0xff
+    bytes; white image samples (runs of 0xff) through plain ASCII85, both orders of Flate / ASCII85 and of LZW / ASCII85, longer
+    chains, Flate + predictor; a document; 100 000 white samples as a form.  The expected decoding is the data itself.
+    Texts with a complete group ABOVE 2^32-1 (s8W-" and neighbours, uuuuu) carry the expectation (error)."""
+    items = []
+    k = 1 if tier == 'quick' else 6
+    def one(data, content, kind, cov, chain=(A8,), orc=()):
+        entries = chain_entries(rng, list(chain), len(content))
+        items.append((stream_case(entries, content, list(orc), data, rand_bytes(rng, rng.choice([0, 3]))),
+                      {'kind': kind, 'nontrivial': len(data) > 0, 'cov': sorted(cov)}))
+    # (a) every boundary group alone, every text form (z / !!!!!, EOD present / missing, white space inside the group)
+    for v in A85_MAIN_GROUPS + A85_MORE_GROUPS:
+        g = v.to_bytes(4, 'big')
+        for o in a85_opts_list(rng) if v in A85_MAIN_GROUPS else a85_opts_list(rng)[1:3]:
+            one(g, a85_encode(g, rng, **o), 'a85-bound-single', [group_tag(v)] + (['a85-z'] if v == 0 and o['use_z'] else []))
+    # (b) ... between other groups, in front of each partial final group, several of them in a row
+    for rep in range(k):
+        for v in A85_MAIN_GROUPS + [rng.choice(A85_MORE_GROUPS)]:
+            g = v.to_bytes(4, 'big')
+            for tail in range(4):
+                d = rand_bytes(rng, 4 * rng.randint(0, 3), 'random') + g * rng.choice([1, 1, 2]) + rand_bytes(rng, 4 * rng.randint(0, 2) + tail, rng.choice(['random', 'small']))
+                one(d, a85_encode(d, rng, **rng.choice(a85_opts_list(rng))), 'a85-bound-embedded', [group_tag(v), 'a85-partial%d' % tail])
+        d = b''.join(v.to_bytes(4, 'big') for v in A85_MAIN_GROUPS + A85_MORE_GROUPS)
+        one(d, a85_encode(d, rng, use_z=rep % 2 == 0), 'a85-bound-all', [group_tag(v) for v in A85_MAIN_GROUPS])
+        d = bytes(4) + b'\xff' * 4 + bytes(4) + b'\xff' * 3           # z s8W-! z s8W*
+        one(d, a85_encode(d, rng), 'a85-bound-embedded', [group_tag(0xFFFFFFFF), 'a85-z', 'a85-partial3'])
+    # (c) runs of 0xff of every length 1..13 (partial final groups of one, two, three 0xff bytes alone and behind full groups), longer ones
+    for n in list(range(1, 14)) + [16, 63, 64, 65, 255, 256, 1000, 1023]:
+        d = b'\xff' * n
+        for o in a85_opts_list(rng)[:1] + ([rng.choice(a85_opts_list(rng)[1:])] if n < 14 else []):
+            one(d, a85_encode(d, rng, **o), 'a85-white', (['a85-group-ffffffff'] if n >= 4 else []) + ['a85-ff-partial%d' % (n % 4)])
+    # (d) white image samples through chains: the ASCII85 stage meets the 0xff groups when it is decoded LAST ([Flate A85], [LZW A85], ..)
+    #     or when the Flate stage under it is made of stored blocks ([A85 Flate] at level 0: the data shows in the zlib stream)
+    for rep in range(k):
+        for chain, level in (([FL, A8], None), ([A8, FL], 0), ([A8, FL], 9), ([LZ, A8], None), ([A8, LZ], None), ([A8, A8], None),
+                             ([FL, LZ, A8], None), ([A8, FL, A8], 0), ([LZ, FL, A8], 6), ([FL, FL, A8], None)):
+            n = rng.choice([64, 400, 1001, 4099, 4800]) + (rng.randint(0, 3) if rep else 0)
+            d = b'\xff' * n if rng.random() < 0.7 else b'\xff' * (n // 2) + rand_bytes(rng, 8, 'random') + b'\xff' * (n // 2)
+            content, orc = encode_chain(rng, chain, d, level, rng.choice(a85_opts_list(rng)[:2] + [{'ws': 0.02}]))
+            one(d, content, 'a85-white-chain-' + '+'.join(f[:2] for f in chain), ['a85-group-ffffffff', 'a85-white-chain'] + (['flate-l0'] if level == 0 else []),
+                chain, orc)
+        # a white image with a PNG predictor under ASCII85: [A85 Flate], parameters [null << /Predictor .. >>], stored blocks and level 9
+        for level in (0, 9):
+            colors = rng.choice([1, 3, 4]); columns = rng.choice([8, 16, 33]); bpr = colors * columns; rows = rng.randint(2, 6)
+            d = b'\xff' * (bpr * rows)
+            pred = rng.choice([10, 12, 15])
+            types = [0] * rows if pred == 10 else [rng.choice([0, 0, 2])] + [rng.choice([0, 2]) for _ in range(rows - 1)]
+            frame = png_encode_frame(types, colors, [d[i * bpr:(i + 1) * bpr] for i in range(rows)])
+            z = zlib.compress(frame, level)
+            content = a85_encode(z, rng)
+            pd = D([('Predictor', I(pred)), ('Columns', I(columns)), ('Colors', I(colors))])
+            entries = [('Filter', A([N(A8), N(FL)])), ('DecodeParms', A([NULL, pd])), ('Length', I(len(content)))]
+            items.append((stream_case(entries, content, [('f', z, frame)], d, b''),
+                          {'kind': 'a85-white-chain-AS+Fl-pred', 'nontrivial': True, 'cov': ['a85-white-chain', 'flate-l%d' % level] + ['png%d' % t for t in set(types)]}))
+    # (e) 100 000 (thorough: up to 400 000) white samples, as forms: s8W-! repeated (the model takes 2 s for 100 000, 16 s for 400 000)
+    for n in ([25000] if k == 1 else [25000, 50000, 100000]):
+        text = fcat(frep(b's8W-!', n), b'~>')
+        white = frep(b'\xff', 4 * n)
+        items.append((big_stream_case([('Filter', N(A8))], text, [], white, b''),
+                      {'kind': 'a85-white-big', 'nontrivial': True, 'cov': ['a85-group-ffffffff', 'big-size>64K']}))
+        z = zlib.compress(text.data, 9)
+        items.append((big_stream_case([('Filter', A([N(FL), N(A8)])), ('Length', I(len(z)))], z, [('f', z, text)], white, b''),
+                      {'kind': 'a85-white-big-chain', 'nontrivial': True, 'cov': ['a85-group-ffffffff', 'a85-white-chain', 'big-size>64K']}))
+    # (f) Document::decompress over such streams (a stream that fails to decode is silently left encoded: the expected contents say it must not be)
+    for rep in range(k):
+        ids = rng.sample(range(1, 40), 4)
+        objects, orc, plains = [], [], []
+        for i, chain in zip(ids, ([A8], [A8, FL], [FL, A8], None)):
+            id_ = (i, rng.choice([0, 0, 2]))
+            if chain is None:
+                objects.append((id_, D([('Type', N('Catalog'))]))); continue
+            d = b'\xff' * rng.choice([4, 12, 300, 1000])
+            content, o = encode_chain(rng, chain, d, 0)
+            orc.extend(o)
+            objects.append((id_, ST([('Filter', A([N(f) for f in chain])), ('Length', I(len(content)))], content)))
+            plains.append((id_, d))
+        doc = DOC('1.5', b'', [('Size', I(100))], objects, max(i for (i, _), _ in objects))
+        items.append((L('case', 'doc', doc, L('nocomp'), orc_sx(orc), L('plains', *[L(OID(*id_), xb(d)) for id_, d in plains])),
+                      {'kind': 'a85-white-doc', 'nontrivial': True, 'cov': ['a85-group-ffffffff']}))
+    # (g) a complete group above 2^32-1: no decoding exists, the stream must be refused
+    for t in A85_ABOVE_MAX:
+        variants = [t + b'~>', t, b's8W-!' + t + b'~>', t + b's8W-!~>', t[:3] + rng.choice([b' ', b'\n', b'\x00']) + t[3:] + b'~>',
+                    a85_encode(rand_bytes(rng, 8, 'random'), eod=False) + t + b'!!~>', b'z' + t + b'z~>']
+        for text in variants if t in A85_ABOVE_MAX[:4] + A85_ABOVE_MAX[-1:] or k > 1 else variants[:2] + [rng.choice(variants[2:])]:
+            chain = rng.choice([[A8], [A8], [FL, A8], [LZ, A8], [A8, A8]])
+            content, orc = encode_chain(rng, chain[:-1], text)
+            items.append((L('case', 'stream', ST(chain_entries(rng, chain, len(content)), content), orc_sx(orc), L('error'), xb(b'')),
+                          {'kind': 'a85-above-max', 'nontrivial': True, 'cov': ['a85-above-max-' + t.decode('latin-1')]}))
+    return items
+
+
+def gen_pred_tags(rng, tier):
+    """every declared Predictor 10..15 x every PNG filter type actually used in the rows (the tag byte in front of each row decides,
+    ISO 32000-1 7.4.4.4: "for any PNG predictor the filter type of each row is given by the tag byte"), Flate and LZW, parameters
+    as a dictionary or as an array.  (Seeded p3: a /Predictor 10 fast path that drops the tags without looking at them.)"""
+    items = []
+    for rep in range(1 if tier == 'quick' else 5):
+        for pred in range(10, 16):
+            for t in range(6):
+                f = rng.choice([FL, LZ])
+                colors, bpc, columns = rng.choice([(1, 8), (3, 8), (1, 16), (4, 8)]) + (rng.choice([1, 2, 5, 9]),)
+                bpp = colors * bpc // 8
+                bpr = bpp * columns
+                nrows = rng.randint(2, 5)
+                plain = rand_bytes(rng, bpr * nrows, rng.choice(['random', 'random', 'runs']))
+                rows = [plain[i * bpr:(i + 1) * bpr] for i in range(nrows)]
+                # t = 5: type 0 in the first row(s) and one other type in the last row only
+                types = [t] * nrows if t < 5 else [0] * (nrows - 1) + [rng.randint(1, 4)]
+                frame = png_encode_frame(types, bpp, rows)
+                if f == FL:
+                    content = zlib.compress(frame, rng.choice([0, 6, 9])); orc = [('f', content, frame)]
+                else:
+                    content = lzw_encode(frame, 1); orc = [('l1', content, frame)]
+                ent = [('Predictor', I(pred)), ('Columns', I(columns))] + ([('Colors', I(colors))] if colors != 1 else []) + \
+                      ([('BitsPerComponent', I(bpc))] if bpc != 8 else [])
+                rng.shuffle(ent)
+                entries = chain_entries(rng, [f], len(content), D(ent) if rng.random() < 0.5 else A([D(ent)]))
+                items.append((stream_case(entries, content, orc, plain, b''),
+                              {'kind': 'pred%d-rows-type%s' % (pred, t if t < 5 else '0-then-other'), 'nontrivial': True,
+                               'cov': ['pred%d-tag%d' % (pred, x) for x in set(types)]}))
+    return items
+
+
+def gen_lzw_longrun(rng, tier):
+    """LZW streams whose last codes each stand for a long string: runs of one byte value of 20 000 .. 200 000 bytes (blank
+    scan lines, white samples), written by the reference encoder and by weezl's own encoder.  (Seeded p2: a hand-written
+    chunked decoding loop that drains the decoder once after the last input byte loses the tail of such runs.)"""
+    items = []
+    sizes = [20000, 32768, 65536, 100000] if tier == 'quick' else [18500, 20000, 24000, 32768, 50000, 65536, 100000, 200000]
+    for n in sizes:
+        for b in ((0, 255) if tier != 'quick' else (rng.choice([0, 255]),)):
+            for head in (b'', rand_bytes(rng, rng.randint(1, 300), 'text')):
+                plain = fcat(head, frep(bytes([b]), n)) if head else frep(bytes([b]), n)
+                ec = rng.choice([None, 0, 1]); early = 1 if ec is None else ec
+                ent = [('EarlyChange', I(ec))] if ec is not None else []
+                entries = [('Filter', N(LZ))] + ([('DecodeParms', D(ent))] if ent else [])
+                tags = {'kind': 'lzw-longrun', 'nontrivial': True, 'cov': ['lzw-longrun>%dK' % (n // 1024), 'lzw-e%s' % ec]}
+                pe = lzw_encode_fast(plain.data, early)
+                items.append((big_stream_case(entries, pe, [('l%d' % early, pe, plain)], plain, b''), dict(tags, cov=tags['cov'] + ['enc-py'])))
+                def make(ans, entries=entries, plain=plain, early=early):
+                    we = ans[('e%d' % early, plain)]
+                    return big_stream_case(entries, we, [('l%d' % early, we, plain)], plain, b'')
+                items.append(Pending(make, [('e%d' % early, plain)], dict(tags, cov=tags['cov'] + ['enc-weezl'])))
+    return items
+
+
 def resolve(items):
     """items: list of (line, tags) or Pending -> list of (line, tags); asks the harness oracle mode once"""
     pend = [x for x in items if isinstance(x, Pending)]
@@ -1449,6 +1659,10 @@ def gen_cases(rng, tier):
             items.append((L('case', 'paeth', str(l), str(l + 2)), {'kind': 'paeth-sweep', 'nontrivial': True}))
     items.extend(gen_codecs(rng, tier))
     items.extend(gen_big(rng, tier))
+    # after the older families: their cases stay the same for a given seed
+    items.extend(gen_a85_boundary(rng, tier))
+    items.extend(gen_pred_tags(rng, tier))
+    items.extend(gen_lzw_longrun(rng, tier))
     out = resolve(items)
     raise_stack_limit()
     return out
@@ -1511,6 +1725,14 @@ SPEC = {
             'Stream::compress then decoding, Document::compress + decompress with the expected content per object, the Gallina inflate / LZW '
             'decoder against flate2 / weezl on such streams; page geometries with thousands of rows at 1-2 MiB run on the implementation only '
             '(kinds ...-model-skipped: direct verdict against the expected data, the model is not asked); '
+            'ASCII85 boundary groups at aligned offsets (0xFFFFFFFF = s8W-!, 0xFFFFFFFE, 0 as z and as !!!!!, 1, values around every digit '
+            'carry) alone, between other groups, in front of every partial final group, in every text form; runs of 0xff of every length '
+            '1..13 and up to 100 000 bytes (thorough: 400 000; white image samples) through plain ASCII85, [Flate A85], [A85 Flate] with stored blocks and at '
+            'level 9, [LZW A85], [A85 LZW], [A85 A85], chains of three, A85 over Flate + predictor, Document::decompress with the expected '
+            'contents; texts with a complete group above 2^32-1 (s8W-" and neighbours, t!!!!, uuuuu; alone, after / before legal groups, '
+            'white space inside, inside chains) must be refused (expectation (error)); every declared Predictor 10-15 x every row filter '
+            'type 0-4 actually used (and type 0 rows followed by one other type), Flate and LZW; LZW runs of one byte value of 20 000 - '
+            '100 000 bytes (thorough: 18 500 - 200 000) from the reference encoder and from weezl\'s encoder; '
             'non-trivial = non-empty data; distinct = distinct case text',
     'extra_trusted': [
         'C09: flate2 (inflate/deflate) and weezl (LZW) are third-party code, universally quantified functions in the theorems.  What is '
